@@ -25,6 +25,7 @@
   * `subst2`, `unescape`, `arrayIndex`, `eval`, `evalStrict`, `set`, `escapesWellFormed`: Spec/Rfc6901.lean.
 -/
 import JsonC.Lemmas.PointerSpec
+import JsonC.Lemmas.TranslatedPtr
 
 namespace JsonC.Pointer
 open JsonC Generated Rfc6901
